@@ -876,7 +876,7 @@ func c18AConcurrentCases() []c18ACase {
 				bound = 2
 			}
 			if th {
-				lens, bound = []int{1, 2, 3}, 2
+				lens, bound = []int{1, 2, 3}, 1
 				if open == 1 {
 					bound = 3
 				}
@@ -884,7 +884,13 @@ func c18AConcurrentCases() []c18ACase {
 			for _, l := range lens {
 				b := bound
 				if l == 3 {
-					b = bound - 1
+					b = vreport.Pick(0, 1)
+					if open == 2 {
+						b = 0
+					}
+				}
+				if l == 1 && open == 2 {
+					b = bound + 1
 				}
 				for _, seq := range c18ASeqs(alpha, l, open, true) {
 					lower := false
@@ -898,7 +904,7 @@ func c18AConcurrentCases() []c18ACase {
 					}
 					cases = append(cases, c18ACase{Layer: "concurrent", Side: side, Open: open, Bodies: bodies, Window: 6, MaxFrame: 16384, Bound: b,
 						Rounds: [][]c18AEv{seq, {c18AInit(1000)}}})
-					if th || l == 1 {
+					if (th && l <= 2) || l == 1 {
 						// the same script after the senders have come to rest, in one round
 						cases = append(cases, c18ACase{Layer: "concurrent", Side: side, Open: open, Bodies: bodies, Window: 6, MaxFrame: 16384, Bound: b,
 							Rounds: [][]c18AEv{{}, seq, {c18AInit(1000)}}})
@@ -1028,7 +1034,7 @@ func TestVerifC18FlowControlAccountant(t *testing.T) {
 		c18ARunPart("flow-accountant-histories", "histories", c18AHistoryCases(), time.Duration(vreport.Pick(3, 25))*time.Minute,
 			"sides server (MStream.SendResponse) and client (MClientStream.RoundTrip); peer initial window 6, 1 stream (body 40) or 2 streams (40, 8) open, a further stream (5) opened by the event 'open'; the senders run to quiescence, then one event per round with quiescence after each: "+
 				"events {SETTINGS_INITIAL_WINDOW_SIZE = 0 | 1 | 3 (below the 6 bytes already sent: negative window) | 6 | 12, WINDOW_UPDATE stream A +1 | +7, stream B +3, late stream +2, connection +1, open}; "+
-				map[bool]string{false: "quick: every sequence of 3 events (1 stream) / 2 events (2 streams), the first event also before the senders start (then one event less), <=1 preemption",
+				map[bool]string{false: "quick: every sequence of 3 events (1 stream, <=1 preemption) / 2 events (2 streams, no preemption, every choice at blocking points), the first event also before the senders start (then one event less)",
 					true: "thorough: every sequence of 4 events (1 stream) / 3 events (2 streams), the first event also before the senders start, <=1 preemption; every sequence of 5 events (1 stream) on the default schedule"}[vreport.Thorough()]+
 				"; plus connection-window-limited histories (initial window 65535, stream A 65531 bytes completes, stream B 12 bytes opened afterwards blocks on the 4 bytes of connection window left): every sequence of "+fmt.Sprint(vreport.Pick(2, 3))+" events over {initial window 0 | 2 | 65535 | 65540, WINDOW_UPDATE connection +1 | +6, stream B +3}; closing rounds re-open every window",
 			c18ARule)
@@ -1036,7 +1042,7 @@ func TestVerifC18FlowControlAccountant(t *testing.T) {
 	if only == "" || only == "concurrent" {
 		c18ARunPart("flow-accountant-concurrent", "concurrent", c18AConcurrentCases(), time.Duration(vreport.Pick(3, 25))*time.Minute,
 			"sides server and client; a peer thread delivers a script containing at least one LOWERING SETTINGS_INITIAL_WINDOW_SIZE while the senders run (and the same script after they came to rest): peer initial window 6, bodies 20 / (20, 8), late stream 5, "+
-				map[bool]string{false: "quick: every script of 1..2 events, <=2 preemptions (1 stream) / <=1 (2 streams)", true: "thorough: every script of 1..3 events, <=3 preemptions (1 stream) / <=2 (2 streams), one less for 3 events"}[vreport.Thorough()]+
+				map[bool]string{false: "quick: every script of 1..2 events, <=2 preemptions (1 stream) / 1 event with <=1 preemption, 2 events without preemption but every choice at blocking points (2 streams)", true: "thorough: every script of 1..2 events with <=3 preemptions (1 stream) / <=2 for 1 event, <=1 for 2 events (2 streams), every script of 3 events with <=1 preemption (1 stream) / none (2 streams)"}[vreport.Thorough()]+
 				" over {initial window 0 | 1 | 3 | 12, WINDOW_UPDATE stream A +7, stream B +3, connection +1, open}; multi-frame bodies 40000 / 70000 with peer initial window 65535 lowered mid-flight to 0 | 1 | 1000 (with WINDOW_UPDATE 5000 before/after, raised again) and two streams of 30000, <="+fmt.Sprint(vreport.Pick(1, 3))+" preemptions; closing rounds WINDOW_UPDATE +1, +4999, initial window 200000, connection +100000",
 			c18ARule)
 	}
